@@ -219,6 +219,28 @@ func (w *sworld) applyStep(o Op) {
 		}
 		a.val = o.V
 		structural = false
+	case "ItemJSON":
+		// decoding JSON into an item handle is Set with the decoded value
+		if a == nil {
+			return
+		}
+		w.nhand++
+		if err := json.Unmarshal([]byte(fmt.Sprint(o.V)), a.it); err != nil {
+			w.fail("json.Unmarshal into an item: %v", err)
+		}
+		a.val = o.V
+		structural = false
+	case "RootJSON":
+		// ... and the sentinel below the last item accepts nothing
+		if len(w.seq[si]) != 0 {
+			return
+		}
+		root := s.Head()
+		_ = json.Unmarshal([]byte(fmt.Sprint(o.V)), root)
+		if root.Ok() || s.Head().Ok() {
+			w.fail("after decoding JSON into the root item of the empty stack it reports Ok")
+		}
+		structural = false
 	case "SetRoot":
 		// the sentinel below the last item cannot be set
 		if len(w.seq[si]) != 0 {
@@ -344,6 +366,8 @@ func propStackModel(t *rapid.T) {
 		},
 		"Set":          func(*rapid.T) { w.apply(Op{Op: "Set", A: hnd(), V: val()}) },
 		"SetRoot":      func(*rapid.T) { w.apply(Op{Op: "SetRoot", L: stack(), V: val()}) },
+		"ItemJSON":     func(*rapid.T) { w.apply(Op{Op: "ItemJSON", A: hnd(), V: val()}) },
+		"RootJSON":     func(*rapid.T) { w.apply(Op{Op: "RootJSON", L: stack(), V: val()}) },
 		"JSON":         func(*rapid.T) { w.apply(Op{Op: "JSON", L: stack()}) },
 		"PopIterator":  func(*rapid.T) { w.apply(Op{Op: "PopIterator", L: stack()}) },
 		"FromIterator": func(*rapid.T) { w.apply(Op{Op: "FromIterator", L: stack()}) },
